@@ -540,8 +540,21 @@ func (ev *Evaluator) evalPathStep(step jast.Node, data Value, env *Env, last boo
 		items = d
 	}
 	var results []Value
+	_, isName := step.(*jast.Name)
 	for _, it := range items {
-		r, err := ev.eval(step, it, env)
+		var r Value
+		var err *Err
+		if isName {
+			// what a field name selects from an item that is an array is the
+			// sequence of the members' values, each flattened one level: those
+			// are the step's results for this item (they are not flattened again)
+			r, err = ev.eval1(step, it, env)
+			if sq, ok := r.(*Seq); ok && len(sq.Items) == 0 {
+				r = Undef
+			}
+		} else {
+			r, err = ev.eval(step, it, env)
+		}
 		if err != nil {
 			return Undef, err
 		}
@@ -549,12 +562,22 @@ func (ev *Evaluator) evalPathStep(step jast.Node, data Value, env *Env, last boo
 			results = append(results, r)
 		}
 	}
-	if last && len(results) == 1 && isArray(results[0]) {
-		return results[0], nil
+	if last && len(results) == 1 {
+		r0 := results[0]
+		if sq, ok := r0.(*Seq); ok {
+			r0 = sq.collapse()
+		}
+		if isArray(r0) {
+			return r0, nil
+		}
 	}
 	_, isCons := step.(*jast.Array)
 	s := &Seq{}
 	for _, v := range results {
+		if sq, ok := v.(*Seq); ok {
+			s.Items = append(s.Items, sq.Items...)
+			continue
+		}
 		if a, ok := v.([]interface{}); ok && !isCons {
 			s.Items = append(s.Items, a...)
 		} else {
